@@ -61,6 +61,7 @@ def check(ctx: Ctx):
 
     _run_rule(ctx, "check_no_pruning", c03.check_no_pruning)
     c03._guarded(ctx, "R03.3", c03.check_beats)  # "meets the threshold" is the exact, inclusive comparison
+    c03._guarded(ctx, "R03.9", c03.check_metric_twins)  # the enum's copies of the decision helpers (the ones the matcher calls) agree with the value class's
     c03._guarded(ctx, "R03.1", c03.check_codec)
     c03._guarded(ctx, "R09.1", c09.check_codec_width)
     c03._guarded(ctx, "R09.1", c09.check_codec_width_relational)
